@@ -146,7 +146,7 @@ CHECKS = {
     ),
     "C04": dict(
         category='exploration',
-        text='Model-generated exploration, declared as such: Robust.tla walks the specification-level encodings (bundles with all block types, status reports, announcements, WebSocket-agent messages), substitutes boundary values at every CBOR length/count position, the harness adds truncations and the fixed-offset TCPCL fields, MTCP frame heads, xz streams, endpoint strings and REST bodies; every decoder call is guarded (no panic, returns within 5 s, allocation <= 4 MiB + 256 x input length; process crashes are attributed by re-running the in-flight input alone). Session negotiation: peer-declared segment MRU over the same boundary values on NextSegment and TransferManager.Send. A TLA+ model does not decide memory safety; arbitrary 64 KiB byte strings and coverage-guided mutation are not covered.',
+        text='Model-generated exploration, declared as such: Robust.tla walks the specification-level encodings (bundles with all block types, status reports, announcements, WebSocket-agent messages), substitutes boundary values at every CBOR length/count position, the harness adds truncations and the fixed-offset TCPCL fields, MTCP frame heads, xz streams (also every size field of the xz container of a BBC transmission at the boundary values with correct checksums, each in a process of its own: four known findings in the xz dependency are reported on every run), endpoint strings and REST bodies; every decoder call is guarded (no panic, returns within 5 s, allocation <= 4 MiB + 256 x input length; process crashes are attributed by re-running the in-flight input alone). Session negotiation: peer-declared segment MRU over the same boundary values on NextSegment and TransferManager.Send. A TLA+ model does not decide memory safety; arbitrary 64 KiB byte strings and coverage-guided mutation are not covered.',
         design_ref='DESIGN.md section 6 C04, section 7',
         note="Trusted: harness guard (runtime.MemStats.TotalAlloc, RLIMIT_AS 6 GiB). 48 MiB slack for the xz decoder's dictionary.",
         technique='TLA+ wire-format model as input generator (length/count positions found by a CBOR walker in TLA+), guarded execution of the real decoders',
